@@ -30,9 +30,9 @@ theorem inv_init : Inv init := Lemmas.inv_init
 invariant and moves the active chain as expected: connect (with or without the validation
 fetches, BIP30 scan or not), multi-block detach through one shared UtxoViewpoint, flush in any
 mode with any threshold/timer outcome, fetch. -/
-theorem step_preserves (s : State) (op : Op) (h : Inv s) (hok : OpOk s.chainRev op) :
-    ∃ s', step s op = some s' ∧ Inv s' ∧ s'.chainRev = chainStep s.chainRev op :=
-  step_inv s op h hok
+theorem step_preserves (s : State) (op : Op) (h : Inv s) (hok : OpOk s.chainRev op) (ht : TT s) :
+    ∃ s', step s op = some s' ∧ Inv s' ∧ s'.chainRev = chainStep s.chainRev op ∧ TT s' :=
+  step_inv s op h hok ht
 
 /-- `reported_eq_fold`: after ANY well-formed history from genesis the run succeeds and, for
 ALL outpoints, what the node reports (through the cache, a nil marker or the database, and
@@ -41,18 +41,20 @@ is the one the history describes. -/
 theorem reported_eq_fold (ops : List Op) (hok : HistOk [] ops) :
     ∃ s, run init ops = some s ∧ s.chainRev = ops.foldl chainStep [] ∧
       (∀ o, abs s.cache s.db o = utxoOf s.chainRev.reverse o) ∧
-      (∀ o, rval (fetch s.cache s.db o).2 = utxoOf s.chainRev.reverse o) := by
-  obtain ⟨s, hr, hi, hc⟩ := run_inv ops init Lemmas.inv_init hok
-  refine ⟨s, hr, hc, fun o => ?_, fun o => ?_⟩
+      (∀ o, rval (fetch s.cache s.db o).2 = utxoOf s.chainRev.reverse o) ∧
+      s.totalTxns = totalTxns s.chainRev.reverse := by
+  obtain ⟨s, hr, hi, hc, htt⟩ := run_inv ops init Lemmas.inv_init hok tt_init
+  refine ⟨s, hr, hc, fun o => ?_, fun o => ?_, htt⟩
   · rw [utxoOf_reverse, hi.abs_eq]
   · rw [utxoOf_reverse]; exact fetch_result s o hi
 
 /-- The same from any state satisfying the invariant (e.g. mid-history). -/
-theorem reported_eq_fold_from (s : State) (ops : List Op) (h : Inv s) (hok : HistOk s.chainRev ops) :
+theorem reported_eq_fold_from (s : State) (ops : List Op) (h : Inv s) (hok : HistOk s.chainRev ops)
+    (ht : TT s) :
     ∃ s', run s ops = some s' ∧ Inv s' ∧ s'.chainRev = ops.foldl chainStep s.chainRev ∧
-      ∀ o, abs s'.cache s'.db o = utxoOf s'.chainRev.reverse o := by
-  obtain ⟨s', hr, hi, hc⟩ := run_inv ops s h hok
-  exact ⟨s', hr, hi, hc, fun o => by rw [utxoOf_reverse, hi.abs_eq]⟩
+      (∀ o, abs s'.cache s'.db o = utxoOf s'.chainRev.reverse o) ∧ TT s' := by
+  obtain ⟨s', hr, hi, hc, htt⟩ := run_inv ops s h hok ht
+  exact ⟨s', hr, hi, hc, fun o => by rw [utxoOf_reverse, hi.abs_eq], htt⟩
 
 /-! ### disconnect restores the state before the connect -/
 
@@ -67,21 +69,24 @@ view path, with the flush to the parent marker) succeeds and restores precisely 
 set and the active chain; the bucket then holds that set by itself and the cache is empty. -/
 theorem disconnect_connect_id (s : State) (b : Block) (validate bip30 full : Bool) (h : Inv s)
     (hv : validBlock (utxoRev s.chainRev) (s.chainRev.length + 1) b)
-    (hid : b.id ∉ s.chainRev.map (·.id)) (hnz : b.id ≠ 0) :
+    (hid : b.id ∉ s.chainRev.map (·.id)) (hnz : b.id ≠ 0) (ht : TT s) :
     ∃ s1 s2, connect s b validate bip30 full = some s1 ∧ step s1 (.detach 1) = some s2 ∧
-      s2.chainRev = s.chainRev ∧ abs s2.cache s2.db = abs s.cache s.db ∧ Inv s2 := by
-  obtain ⟨s1, h1, hi1, hc1⟩ := connect_inv s b validate bip30 full h hv hid hnz
-  obtain ⟨s2, h2, hi2, hc2⟩ := step_inv s1 (.detach 1) hi1 (by simp [OpOk, hc1])
-  refine ⟨s1, s2, h1, h2, ?_, ?_, hi2⟩
-  · rw [hc2, hc1]; rfl
-  · rw [hi2.abs_eq, h.abs_eq, hc2, hc1]; rfl
+      s2.chainRev = s.chainRev ∧ abs s2.cache s2.db = abs s.cache s.db ∧ Inv s2 ∧
+      s2.totalTxns = s.totalTxns := by
+  obtain ⟨s1, h1, hi1, hc1, htt1⟩ := connect_inv s b validate bip30 full h hv hid hnz
+  have ht1 : TT s1 := by unfold TT at ht ⊢; rw [htt1, hc1, totalTxns_cons, ht]
+  obtain ⟨s2, h2, hi2, hc2, ht2⟩ := step_inv s1 (.detach 1) hi1 (by simp [OpOk, hc1]) ht1
+  have hch : s2.chainRev = s.chainRev := by rw [hc2, hc1]; rfl
+  refine ⟨s1, s2, h1, h2, hch, ?_, hi2, ?_⟩
+  · rw [hi2.abs_eq, h.abs_eq, hch]
+  · unfold TT at ht ht2; rw [ht2, hch, ht]
 
 /-- Detaching `n ≤ length` blocks with one shared view rewinds the fold by exactly those blocks. -/
-theorem detach_rewinds (s : State) (n : Nat) (h : Inv s) (hn : n ≤ s.chainRev.length) :
+theorem detach_rewinds (s : State) (n : Nat) (h : Inv s) (hn : n ≤ s.chainRev.length) (ht : TT s) :
     ∃ s', step s (.detach n) = some s' ∧ Inv s' ∧ s'.chainRev = s.chainRev.drop n ∧
-      ∀ o, abs s'.cache s'.db o = utxoOf (s.chainRev.drop n).reverse o := by
-  obtain ⟨s', h1, hi, hc⟩ := step_inv s (.detach n) h hn
-  exact ⟨s', h1, hi, hc, fun o => by rw [utxoOf_reverse, hi.abs_eq, hc]; rfl⟩
+      (∀ o, abs s'.cache s'.db o = utxoOf (s.chainRev.drop n).reverse o) ∧ TT s' := by
+  obtain ⟨s', h1, hi, hc, htt⟩ := step_inv s (.detach n) h hn ht
+  exact ⟨s', h1, hi, hc, fun o => by rw [utxoOf_reverse, hi.abs_eq, hc]; rfl, htt⟩
 
 /-! ### flushes -/
 
@@ -135,7 +140,7 @@ of the invariant. -/
 theorem crash_restart_recovers (s : State) (fulls : List Bool) (h : PInv s) :
     ∃ s', restart s fulls = some s' ∧ Inv s' ∧ s'.chainRev = s.chainRev ∧ s'.journal = s.journal ∧
       ∀ o, abs s'.cache s'.db o = utxoOf s.chainRev.reverse o := by
-  obtain ⟨s', h1, hi, hc, hj⟩ := restart_inv s fulls h
+  obtain ⟨s', h1, hi, hc, hj, _⟩ := restart_inv s fulls h
   exact ⟨s', h1, hi, hc, hj, fun o => by rw [utxoOf_reverse, ← hc, hi.abs_eq]⟩
 
 /-- `restart_interrupted_keeps_persisted`: a start-up that is interrupted (or dies) after any
@@ -144,7 +149,8 @@ satisfies the persistent invariant (bucket = fold at the NEW marker, journal exa
 number of interrupted start-ups followed by a completed one recovers (`step_preserves` for
 `Op.restart aborts fulls`). -/
 theorem restart_interrupted_keeps_persisted (s : State) (n : Nat) (fulls : List Bool) (h : PInv s) :
-    ∃ s', restartAborted s n fulls = some s' ∧ PInv s' ∧ s'.chainRev = s.chainRev :=
+    ∃ s', restartAborted s n fulls = some s' ∧ PInv s' ∧ s'.chainRev = s.chainRev ∧
+      s'.totalTxns = s.totalTxns :=
   restartAborted_pinv s n fulls h
 
 /-- The persistent part of the invariant follows from the invariant. -/
@@ -173,13 +179,15 @@ theorem journal_of_connect (s : State) (b : Block) (validate bip30 full : Bool) 
     (hid : b.id ∉ s.chainRev.map (·.id)) (hnz : b.id ≠ 0) :
     ∃ s', connect s b validate bip30 full = some s' ∧
       s'.journal b.id = some (journalOf (utxoOf s.chainRev.reverse) (s.chainRev.length + 1) b) := by
-  obtain ⟨s', h1, hi, hc⟩ := connect_inv s b validate bip30 full h hv hid hnz
+  obtain ⟨s', h1, hi, hc, _⟩ := connect_inv s b validate bip30 full h hv hid hnz
   refine ⟨s', h1, ?_⟩
   have hj := hi.journal
   rw [hc] at hj
   rw [hj.1, utxoOf_reverse]
 
-/-- Total transaction count of a chain grows by the block's transaction count. -/
+/-- Total transaction count of a chain grows by the block's transaction count (the Model's
+`totalTxns` field - `BestState.TotalTxns` - equals `Spec.totalTxns` of the active chain after every
+well-formed history: last conjunct of `reported_eq_fold`; `TT s` in `step_preserves`). -/
 theorem totalTxns_connect (chain : List Block) (b : Block) :
     totalTxns (chain ++ [b]) = totalTxns chain + (1 + b.txs.length) := by
   simp [totalTxns]; omega
